@@ -1,7 +1,7 @@
 (* C27 -- Daemon activation yields one live daemon per socket.
    Property theorems only; every proof is [exact <lemma>].
    Process spawning, unix sockets and flock are MODELLED (model/C27.v). *)
-From verif Require Import lib.Base model.C27 proofs.C27_proofs proofs.C27_oracle proofs.C27_refuted.
+From verif Require Import lib.Base model.C27 proofs.C27_proofs proofs.C27_serial proofs.C27_oracle proofs.C27_refuted.
 Open Scope nat_scope.
 
 (* EVERY interleaving (any number of shells, concurrent starts, stale socket,
@@ -13,6 +13,65 @@ Theorem C27_activation_result : forall st0 ls st s d,
   nth_error (ss st) s = Some (SConn d) -> pc_of st d = DServe.
 Proof. exact activation_result. Qed.
 Print Assumptions C27_activation_result.
+
+(* EVERY interleaving: after any further step of any process, a client that is
+   still connected still has its daemon inside the serve loop. *)
+Theorem C27_serves_while_clients : forall st0 ls st l st' s d,
+  initial st0 -> run st0 ls = Some st -> step st l = Some st' ->
+  nth_error (ss st) s = Some (SConn d) -> nth_error (ss st') s = Some (SConn d) ->
+  pc_of st d = DServe /\ pc_of st' d = DServe.
+Proof. exact serves_while_clients. Qed.
+Print Assumptions C27_serves_while_clients.
+
+(* ---- serialized schedules ([srun]: a shell starts Activate, or closes its client,
+   only when no other shell is inside Activate and no daemon is starting up or
+   exiting; crashes and all timeouts may happen at any time; any number of shells;
+   with or without a stale socket; no outdated daemon).
+
+   FULL statements (false of the faithful model, see the _refuted theorems below):
+     forall st0 ls st, initial st0 -> run st0 ls = Some st ->
+       (forall d1 d2, pc_of st d1 = DServe -> pc_of st d2 = DServe -> d1 = d2)
+       /\ (forall s d, nth_error (ss st) s = Some (SConn d) -> lock st = Some d /\ db_of st d = true)
+       /\ (forall d, pc_of st d = DExit1 \/ pc_of st d = DExit3 -> sock st = SkOwned d \/ sock st = SkNone). *)
+
+Theorem C27_one_daemon_per_socket_partial : forall n stale ls st,
+  srun (init n stale) ls = Some st ->
+  (forall d1 d2, pc_of st d1 = DServe -> pc_of st d2 = DServe -> d1 = d2) /\
+  (forall d, pc_of st d = DServe -> sock st = SkOwned d /\ lock st = Some d /\ db_of st d = true).
+Proof. exact one_daemon_per_socket. Qed.
+Print Assumptions C27_one_daemon_per_socket_partial.
+
+Theorem C27_connected_daemon_owns_db_partial : forall n stale ls st s d,
+  srun (init n stale) ls = Some st -> nth_error (ss st) s = Some (SConn d) ->
+  pc_of st d = DServe /\ lock st = Some d /\ db_of st d = true /\ sock st = SkOwned d.
+Proof. exact connected_daemon_owns_db. Qed.
+Print Assumptions C27_connected_daemon_owns_db_partial.
+
+Theorem C27_exit_removes_only_own_socket_partial : forall n stale ls st d,
+  srun (init n stale) ls = Some st -> (pc_of st d = DExit1 \/ pc_of st d = DExit3) ->
+  sock st = SkOwned d \/ sock st = SkNone.
+Proof. exact exit_removes_only_own_socket. Qed.
+Print Assumptions C27_exit_removes_only_own_socket_partial.
+
+(* the stale-socket branch of Activate removes the path only when no daemon is alive *)
+Theorem C27_shell_removes_only_stale_partial : forall n stale ls st s d,
+  srun (init n stale) ls = Some st -> nth_error (ss st) s = Some SRemove -> pc_of st d = DDead.
+Proof. exact shell_removes_only_stale. Qed.
+Print Assumptions C27_shell_removes_only_stale_partial.
+
+Theorem C27_serialized_is_a_schedule : forall ls st st',
+  srun st ls = Some st' -> run st ls = Some st'.
+Proof. exact srun_run. Qed.
+Print Assumptions C27_serialized_is_a_schedule.
+
+(* non-vacuity: a serialized schedule with a stale socket in which two shells end
+   up connected to the same daemon, then both leave and the daemon is gone *)
+Example C27_serialized_nonvacuous :
+  exists st, srun (init 2 true)
+    [LBegin 0; LLstat 0; LDial 0; LRemove 0; LSpawn 0; LListen 0; LOpenDB 0; LPollLstat 0; LPollDial 0;
+     LBegin 1; LLstat 1; LDial 1] = Some st
+  /\ nth_error (ss st) 0 = Some (SConn 0) /\ nth_error (ss st) 1 = Some (SConn 0).
+Proof. eexists. split; [vm_compute; reflexivity|split; reflexivity]. Qed.
 
 (* The acceptor evaluated on the observations of real processes is sound for the
    Prop-level statement (listeners = path owner, activation result, clients stay served). *)
@@ -41,3 +100,25 @@ Theorem C27_exit_removes_only_own_socket_refuted :
   exists ls st, run (init 2 true) ls = Some st /\ foreign_unlink st = true.
 Proof. exact stale_foreign_unlink. Qed.
 Print Assumptions C27_exit_removes_only_own_socket_refuted.
+
+(* One shell, an outdated daemon, nothing concurrent on the shell side: the old
+   daemon is signalled, removes the path (os.Remove), the shell sees the path gone
+   and spawns the successor, which binds the path; then the old daemon's
+   listener.Close unlinks the path again -- the successor's socket. *)
+Theorem C27_upgrade_exit_removes_only_own_socket_refuted :
+  exists ls st, run (init_old 1) ls = Some st /\ foreign_unlink st = true.
+Proof. exact upgrade_foreign_unlink. Qed.
+Print Assumptions C27_upgrade_exit_removes_only_own_socket_refuted.
+
+Theorem C27_upgrade_one_daemon_per_socket_refuted :
+  exists ls st, run (init_old 1) ls = Some st /\ serving_unreachable st = true.
+Proof. exact upgrade_serving_unreachable. Qed.
+Print Assumptions C27_upgrade_one_daemon_per_socket_refuted.
+
+(* No stale socket, no outdated daemon: the last client leaves while another shell
+   starts (the schedule is not serialized): the exiting daemon unlinks the path of
+   the daemon the new shell has just spawned. *)
+Theorem C27_exit_race_removes_only_own_socket_refuted :
+  exists ls st, run (init 2 false) ls = Some st /\ foreign_unlink st = true.
+Proof. exact exit_race_foreign_unlink. Qed.
+Print Assumptions C27_exit_race_removes_only_own_socket_refuted.
